@@ -407,6 +407,13 @@ class ExcFlow:
             owner = f
             while owner.parent is not None:
                 owner = owner.parent
+            if isinstance(v, ast.Name) and not isinstance(f.node, ast.Lambda):
+                # a local alias of the task attribute: `t = self._connector; ... t.exception()`
+                from .loader import single_defs
+
+                d = single_defs(f.node).get(v.id)
+                if isinstance(d, ast.Attribute):
+                    v = d
             if isinstance(v, ast.Attribute) and isinstance(v.value, ast.Name) and v.value.id == "self" and owner.cls is not None:
                 t = self.res.task_attr(owner.cls.qualname, v.attr)
                 if t:
